@@ -294,8 +294,9 @@ class SyntaxCheckInstance(Visitor):
     def _visit_for(self, stmt: ForStmt, ctx: _Ctx):
         env = ctx.env
         self._visit_expr(stmt.iterable, ctx)
-        env = self._visit_binding(stmt.target, env)
-        body_env = self._visit_block(stmt.body, _Ctx(env, False))
+        # the target is bound for the body only: the loop may run zero
+        # times, so after it the target is defined only if it was before
+        body_env = self._visit_block(stmt.body, _Ctx(self._visit_binding(stmt.target, env), False))
         return env.merge(body_env)
 
     def _visit_context(self, stmt: ContextStmt, ctx: _Ctx):
